@@ -136,6 +136,8 @@ def run(ck, tier):
     F = factsmod.Facts("ws")
     from . import influence as _infl
     _infl.run(ck, F, 'C10')
+    from . import mustpass as _mp
+    _mp.run(ck, F, 'C10')
     run_child_opts(ck, F)
     run_partial(ck, F)
     run_float_native(ck, F)
